@@ -107,9 +107,9 @@ func c10Run(w *W) {
 		done bool
 	}
 	type waitRec struct {
-		invoke, ret int64
-		err         error
-		done        bool
+		invoke, ret  int64
+		err          error
+		done         bool
 		runningAfter bool
 	}
 	var starts []*startRec
